@@ -97,7 +97,13 @@ OnReset(L, e, line) ==
 OnQuiet(L, e, line) == [L EXCEPT !.t = e.t, !.last = [kind |-> "quiet", line |-> line]]
 
 \* stored responses the request could be answered with, judged when the exchange begins
+\* When the origin has used different Vary sets for one URI, which of several matching stored responses a cache
+\* selects (and therefore validates) is its own choice (RFC 9111 4.1): nothing is owed then.
+VaryConsistent(L, u) ==
+  Cardinality({ <<L.eff[T].rep.vary, L.eff[T].rep.vs>> : T \in {S \in StoredToks(L) \cap DOMAIN L.tk : L.tk[S].rq.u = u} }) <= 1
+
 Candidates(L, rq, x) ==
+  IF ~VaryConsistent(L, rq.u) THEN {} ELSE
   { T \in StoredToks(L) \cap DOMAIN L.tk :
       /\ L.tk[T].rq.u = rq.u /\ L.tk[T].x # x
       /\ T \notin L.inval /\ T \notin L.fuzzy
